@@ -160,10 +160,11 @@ def run(ctx):
     for vi, ann in enumerate(variants):
         # one process: sequential executions (1 core) under schedulers that order the three consumers differently, so that a
         # consumer overwriting its private copy runs BEFORE a sibling's conversion in some run; then 2-3 processes
-        plan = [(1, 1, "lfq"), (1, 1, "ip"), (1, 1, "ap"), (1, rng.choice([2, 3]), "ll"), (2, rng.choice([1, 2, 3]), None),
+        plan = [(1, 1, "lfq"), (1, 1, "ip"), (1, 1, "ap"), (1, 1, "rnd"), (1, 1, "spq"), (1, 2, "gd"), (1, rng.choice([2, 3]), "ll"),
+                (2, rng.choice([1, 2, 3]), None),
                 (3, rng.choice([1, 2, 3]), None)] + ([] if ctx.quick else [(3, 2, None), (2, 1, "ip")])
         for nodes, cores, sched in plan:
-            nt = rng.randint(max(2, nodes), 4)
+            nt = rng.randint(max(3, nodes), 5)
             mb = rng.choice([3, 4, 5])
             env = {"PARSEC_MCA_runtime_comm_coll_bcast": str(rng.randint(0, 2)),
                    "PARSEC_MCA_runtime_comm_short_limit": "0"}
